@@ -79,6 +79,10 @@ func (aacdp *aacDepacketizer) depacketizeFor2ByteAUHeader(packet *Packet) (err e
 		if int(frameSize) > len(framesPayload) {
 			return fmt.Errorf("aac AU of %d bytes announced, %d bytes left in the payload", frameSize, len(framesPayload))
 		}
+		if frameSize == 0 {
+			// an AU-header without an access unit: there is nothing to hand on
+			return fmt.Errorf("aac AU-header %d announces an empty access unit", i)
+		}
 		pts := aacdp.rtp2ntp(frameTimeStamp) + ptsDelay
 		frame := &codec.Frame{
 			MediaType: codec.MediaTypeAudio,
